@@ -23,6 +23,7 @@ class HookRecorder:
     def __init__(self, uros):
         self.uros = uros
         self.raw = []
+        self.params = {}
 
     def __call__(self, event, fields):
         f = dict(fields)
@@ -38,6 +39,9 @@ class HookRecorder:
         if event == "declare_param":
             f["value"] = float(f["param"].value)
             f["name"] = f["param"].name
+            self.params[f["name"]] = f["param"]
+        if event == "publish_end" and f["pub"].topic == "params":
+            f["caches"] = {n: float(p.value) for n, p in self.params.items()}     # snapshot at event time
         self.raw.append((event, f))
 
     # ------------------------------------------------------------------ second pass
@@ -132,7 +136,7 @@ class HookRecorder:
                 t, m = stack.pop()
                 out.append({"a": "PublishEnd", "topic": t, "msg": m})
                 if t == "params" and not stack:
-                    out.append({"a": "Obs", "cache": {mname(n): enc(n, p.value) for n, p in params_obj.items()}, "idle": 1})
+                    out.append({"a": "Obs", "cache": {mname(n): enc(n, v) for n, v in f["caches"].items()}, "idle": 1})
             elif ev == "logger_row":
                 row = f["row"]
                 latest, lpar = {}, {}
